@@ -865,12 +865,9 @@ class Curve(SplineGeometry):
             warnings.warn("Cannot determine the delta value. Please set knot vector and degree before sample size.")
             return
 
-        # To make it operate like linspace, we have to know the starting and ending points.
-        start = self.knotvector[self.degree]
-        stop = self.knotvector[-(self.degree+1)]
-
-        # Set delta value
-        self.delta = (stop - start) / float(value)
+        # The evaluation delta is relative to the parametric range (evaluation uses linspace on [start, stop]),
+        # therefore the sample size does not depend on the range of the knot vector
+        self.delta = 1.0 / float(value)
 
     @property
     def delta(self):
@@ -1506,12 +1503,9 @@ class Surface(SplineGeometry):
             warnings.warn("Cannot determine 'delta_u' value. Please set knot vectors and degrees before sample size.")
             return
 
-        # To make it operate like linspace, we have to know the starting and ending points.
-        start_u = self.knotvector_u[self.degree_u]
-        stop_u = self.knotvector_u[-(self.degree_u+1)]
-
-        # Set delta values
-        self.delta_u = (stop_u - start_u) / float(value)
+        # The evaluation delta is relative to the parametric range (evaluation uses linspace on [start, stop]),
+        # therefore the sample size does not depend on the range of the knot vector
+        self.delta_u = 1.0 / float(value)
 
     @property
     def sample_size_v(self):
@@ -1538,12 +1532,9 @@ class Surface(SplineGeometry):
             warnings.warn("Cannot determine 'delta_v' value. Please set knot vectors and degrees before sample size.")
             return
 
-        # To make it operate like linspace, we have to know the starting and ending points.
-        start_v = self.knotvector_v[self.degree_v]
-        stop_v = self.knotvector_v[-(self.degree_v+1)]
-
-        # Set delta values
-        self.delta_v = (stop_v - start_v) / float(value)
+        # The evaluation delta is relative to the parametric range (evaluation uses linspace on [start, stop]),
+        # therefore the sample size does not depend on the range of the knot vector
+        self.delta_v = 1.0 / float(value)
 
     @property
     def sample_size(self):
@@ -1575,15 +1566,10 @@ class Surface(SplineGeometry):
             warnings.warn("Cannot determine 'delta' value. Please set knot vectors and degrees before sample size.")
             return
 
-        # To make it operate like linspace, we have to know the starting and ending points.
-        start_u = self.knotvector_u[self.degree_u]
-        stop_u = self.knotvector_u[-(self.degree_u+1)]
-        start_v = self.knotvector_v[self.degree_v]
-        stop_v = self.knotvector_v[-(self.degree_v+1)]
-
-        # Set delta values
-        self.delta_u = (stop_u - start_u) / float(value)
-        self.delta_v = (stop_v - start_v) / float(value)
+        # The evaluation delta is relative to the parametric range (evaluation uses linspace on [start, stop]),
+        # therefore the sample size does not depend on the range of the knot vector
+        self.delta_u = 1.0 / float(value)
+        self.delta_v = 1.0 / float(value)
 
     @property
     def delta_u(self):
@@ -2556,12 +2542,9 @@ class Volume(SplineGeometry):
             warnings.warn("Cannot determine 'delta_u' value. Please set knot vectors and degrees before sample size.")
             return
 
-        # To make it operate like linspace, we have to know the starting and ending points.
-        start_u = self.knotvector_u[self.degree_u]
-        stop_u = self.knotvector_u[-(self.degree_u + 1)]
-
-        # Set delta values
-        self.delta_u = (stop_u - start_u) / float(value)
+        # The evaluation delta is relative to the parametric range (evaluation uses linspace on [start, stop]),
+        # therefore the sample size does not depend on the range of the knot vector
+        self.delta_u = 1.0 / float(value)
 
     @property
     def sample_size_v(self):
@@ -2588,12 +2571,9 @@ class Volume(SplineGeometry):
             warnings.warn("Cannot determine 'delta_v' value. Please set knot vectors and degrees before sample size.")
             return
 
-        # To make it operate like linspace, we have to know the starting and ending points.
-        start_v = self.knotvector_v[self.degree_v]
-        stop_v = self.knotvector_v[-(self.degree_v + 1)]
-
-        # Set delta values
-        self.delta_v = (stop_v - start_v) / float(value)
+        # The evaluation delta is relative to the parametric range (evaluation uses linspace on [start, stop]),
+        # therefore the sample size does not depend on the range of the knot vector
+        self.delta_v = 1.0 / float(value)
 
     @property
     def sample_size_w(self):
@@ -2620,12 +2600,9 @@ class Volume(SplineGeometry):
             warnings.warn("Cannot determine 'delta_w' value. Please set knot vectors and degrees before sample size.")
             return
 
-        # To make it operate like linspace, we have to know the starting and ending points.
-        start_w = self.knotvector_w[self.degree_w]
-        stop_w = self.knotvector_w[-(self.degree_w + 1)]
-
-        # Set delta values
-        self.delta_w = (stop_w - start_w) / float(value)
+        # The evaluation delta is relative to the parametric range (evaluation uses linspace on [start, stop]),
+        # therefore the sample size does not depend on the range of the knot vector
+        self.delta_w = 1.0 / float(value)
 
     @property
     def sample_size(self):
@@ -2659,18 +2636,11 @@ class Volume(SplineGeometry):
             warnings.warn("Cannot determine 'delta' value. Please set knot vectors and degrees before sample size.")
             return
 
-        # To make it operate like linspace, we have to know the starting and ending points.
-        start_u = self.knotvector_u[self.degree_u]
-        stop_u = self.knotvector_u[-(self.degree_u + 1)]
-        start_v = self.knotvector_v[self.degree_v]
-        stop_v = self.knotvector_v[-(self.degree_v + 1)]
-        start_w = self.knotvector_w[self.degree_w]
-        stop_w = self.knotvector_w[-(self.degree_w + 1)]
-
-        # Set delta values
-        self.delta_u = (stop_u - start_u) / float(value)
-        self.delta_v = (stop_v - start_v) / float(value)
-        self.delta_w = (stop_w - start_w) / float(value)
+        # The evaluation delta is relative to the parametric range (evaluation uses linspace on [start, stop]),
+        # therefore the sample size does not depend on the range of the knot vector
+        self.delta_u = 1.0 / float(value)
+        self.delta_v = 1.0 / float(value)
+        self.delta_w = 1.0 / float(value)
 
     @property
     def delta_u(self):
